@@ -275,7 +275,11 @@ class Program:
             n_fs = forward_substitute_temps(tree)
             if n_fs:
                 inlined = inlined + [f"forward-substituted {n_fs} adjacent single-use temporaries / bool() tests"]
-            from .normalize import unroll_table_loops
+            from .normalize import expand_search_idioms, unroll_table_loops
+
+            n_se = expand_search_idioms(tree)
+            if n_se:
+                inlined = inlined + [f"expanded {n_se} next()/any()/all() search idiom(s) into loops"]
 
             n_un = unroll_table_loops(tree)
             if n_un:
